@@ -96,7 +96,8 @@ def make_mvdr(rng, tier, idx):
     K = int(rng.integers(1, 4))
     Pn = rand_hpd(rng, (F,), D)
     if rng.random() < 0.3:   # not exactly Hermitian: the code symmetrises
-        Pn = Pn + 1e-3 * np.abs(Pn).max() * crandn(rng, F, D, D)
+        Z = crandn(rng, F, D, D)
+        Pn = Pn + 1e-2 * np.abs(Pn).max() * 0.5 * (Z - herm(Z))   # anti-Hermitian part: removed by the symmetrisation
     if layout == 'single':
         a, Pn = crandn(rng, D), Pn[0]
     elif layout == 'bins':
@@ -147,6 +148,8 @@ def eval_mvdr(rp, rng=None):
     best = np.linalg.solve(np.broadcast_to(Sb, ac.shape[:-1] + (D, D)), ac[..., None])[..., 0]
     best = best / np.einsum('...d,...d->...', ac.conj(), best)[..., None]
     comps = [best]
+    # first-order rounding term of the comparison grows with the condition number of the noise PSD
+    otol = 1e-9 + 1e-11 * np.broadcast_to(np.linalg.cond(Sb), pw.shape)
     for t in (1e-3, 1e-1, 1.0):
         z = crandn(prng, *ac.shape)
         d = z - ac * (np.einsum('...d,...d->...', ac.conj(), z) / np.einsum('...d,...d->...', ac.conj(), ac).real)[..., None]
@@ -155,7 +158,7 @@ def eval_mvdr(rp, rng=None):
     for v in comps:
         assert np.abs(np.einsum('...d,...d->...', v.conj(), ac) - 1).max() < 1e-6
         pv = np.einsum('...a,...ab,...b->...', v.conj(), Sb, v).real
-        if (pv < pw * (1 - 1e-7)).any():
+        if (pv < pw * (1 - otol)).any():
             i = int(np.argmax(pw - pv))
             return ('a distortionless competitor has smaller noise power: %.6g < %.6g' % (pv.ravel()[i], pw.ravel()[i]),
                     'mvdr:optimal:%s' % cls, _coq_mvdr(ac, Sb, wc, Pn, layout, rng), None)
